@@ -24,7 +24,7 @@ TRUSTED = [
 ASSUMPTIONS = ["terms are products of distinct factors (Term.__init__ de-duplicates by expression)"]
 RULE = (
     "random formulas over numeric columns a..e (products of distinct factors, optional numeric literal scalings, "
-    "intercept on/off) x random tuples of differentiation variables incl. repeats and absent names; "
+    "intercept on/off) x random tuples of differentiation variables incl. repeats and absent names; 30% of the cases continue with in-place edits of the formula (del/pop/insert/append/setitem) and a second differentiation; "
     "non-trivial = formula has an interaction term and wrt is non-empty; distinct by canonical JSON"
 )
 
@@ -49,12 +49,20 @@ def cases(rng, tier):
         formula = icpt + " + ".join(terms)
         nw = rng.choice([1, 1, 1, 2, 2, 3])
         wrt = [rng.choice(VARS + ["zz"]) for _ in range(nw)]
-        yield dict(
+        c = dict(
             formula=formula,
             wrt=wrt,
             efr=rng.random() < 0.5,
             data={v: [rng.randint(-4, 6) for _ in range(4)] for v in VARS},
         )
+        if rng.random() < 0.3:
+            # history: differentiate, edit the formula object in place, differentiate again
+            c["edits"] = [
+                rng.choice([["del", rng.randint(0, 5)], ["pop"], ["insert", rng.randint(0, 5), rng.choice(VARS)],
+                            ["append", ":".join(rng.sample(VARS, 2))], ["set", rng.randint(0, 5), rng.choice(VARS)]])
+                for _ in range(rng.randint(1, 3))
+            ]
+        yield c
 
 
 def describe(c):
@@ -78,6 +86,29 @@ def impl(c):
     except Exception as e:
         return dict(terms=_terms(f), error=type(e).__name__)
     out = dict(terms=_terms(f), dterms=_terms(d))
+    if c.get("edits"):
+        from formulaic.parser.types import Factor, Term
+
+        mk = lambda s: Term([Factor(x) for x in s.split(":")])
+        for e in c["edits"]:
+            try:
+                if e[0] == "del":
+                    del f[e[1]]
+                elif e[0] == "pop":
+                    f.pop()
+                elif e[0] == "insert":
+                    f.insert(e[1], mk(e[2]))
+                elif e[0] == "append":
+                    f.append(mk(e[1]))
+                elif e[0] == "set":
+                    f[e[1]] = mk(e[2])
+            except IndexError:
+                pass
+        out["terms2"] = _terms(f)
+        try:
+            out["dterms2"] = _terms(f.differentiate(*c["wrt"]))
+        except Exception as e:
+            out["dterms2"] = {"error": type(e).__name__}
     # materialise original and derivative (numpy output: equal labels cannot collide)
     df = pandas.DataFrame(c["data"])
     try:
@@ -102,7 +133,10 @@ def impl(c):
 
 
 def request(c, o):
-    return dict(terms=o.get("terms", []), wrt=c["wrt"])
+    r = dict(terms=o.get("terms", []), wrt=c["wrt"])
+    if "terms2" in o:
+        r["terms2"] = o["terms2"]
+    return r
 
 
 def agree(c, o, m):
@@ -110,7 +144,11 @@ def agree(c, o, m):
         return "driver: " + m["driver_error"][:300]
     if "error" in o or "error" in m:
         return None if o.get("error") == m.get("error") else f"impl {o.get('error')} vs model {m.get('error')}"
-    return None if o.get("dterms") == m.get("terms") else "differentiated term lists differ"
+    if o.get("dterms") != m.get("terms"):
+        return "differentiated term lists differ"
+    if "terms2" in o and o.get("dterms2") != m.get("terms2"):
+        return "after in-place edits of the formula, differentiating again differs from the model"
+    return None
 
 
 def _spec_derivative(term, wrt):
@@ -135,6 +173,17 @@ def oracle(c, o):
         shown = [dict(x="0", m="literal")] if want is None else (want or [dict(x="1", m="literal")])
         if d != shown:
             return f"term {t} differentiated to {d}, product rule gives {shown}"
+    if "terms2" in o:
+        d2 = o["dterms2"]
+        if isinstance(d2, dict):
+            return f"differentiating the edited formula raised {d2['error']}"
+        if len(d2) != len(o["terms2"]):
+            return f"after in-place edits the formula has {len(o['terms2'])} terms but its derivative has {len(d2)}"
+        for t, d in zip(o["terms2"], d2):
+            want = _spec_derivative(t, c["wrt"])
+            shown = [dict(x="0", m="literal")] if want is None else (want or [dict(x="1", m="literal")])
+            if d != shown:
+                return f"after in-place edits: term {t} differentiated to {d}, product rule gives {shown}"
     if "mat_error" in o:
         return "materialisation of the derivative failed: " + o["mat_error"]
     # finite differences (h = 1 in each wrt variable successively) of each original term's column
